@@ -49,7 +49,7 @@ ASSUMPTIONS = [
     "tolerance classes: ipm 1e-4 (picos+CVXOPT), scs 1e-3 (cvxpy default), returned operators judged feasible within 1e-5",
     "CVXOPT's default KKT solver diverges on the redundant equality rows picos generates for sum_i M_i = I (picos issue 341, named in "
     "state_exclusion's docstring); ppt_distinguishability offers no solver options, so a primal call that raises ArithmeticError from "
-    "inside cvxopt or exceeds a CPU guard of 1.5 s (normal: < 0.35 s) is counted as indeterminate (solver failure), never as a violation",
+    "inside cvxopt or exceeds a CPU guard of 1 s (normal: < 0.35 s) is counted as indeterminate (solver failure), never as a violation",
     "only the solvers present in the image (picos: cvxopt; cvxpy default: SCS)",
     "ensembles bounded: 2-3 (quick) / 2-4 (thorough) states on 2x2, 2x3, 3x2; hierarchy levels 1-2; histories of depth 2 (3 over the cheap menu)",
 ]
@@ -58,7 +58,7 @@ IPM = 1e-4
 SCS = 1e-3
 OPS = 1e-5  # feasibility slack for operators returned by an interior-point solver
 WIDE = 1e-5  # a harness bracket wider than this is indeterminate
-GUARD_CPU = 1.5
+GUARD_CPU = 1.0
 
 
 def _seed():
@@ -210,9 +210,11 @@ FULL_CALLS = [[f, s] for f in ("col", "1d", "dm") for s in (0, 1)]
 def ppt_value_cases(tier, seed):
     for system in ("2x2", "2x3"):
         for sub in subsets(system, (2,)):
-            for prior in ("uniform", "ramp", "g0"):
-                yield {"sys": system, "kets": sub, "prior": prior, "calls": FULL_CALLS, "pform": pform_for(prior, crc(sub))}
-            yield {"sys": system, "kets": sub, "prior": "none", "calls": [["col", 0], ["dm", 1]], "pform": "none"}
+            for prior in ("g0", "uniform", "ramp"):
+                # quick: full product form x party on the generic prior, the two extreme configurations on the others
+                calls = FULL_CALLS if (prior == "g0" or tier == "thorough") else [["col", 0], ["dm", 1]]
+                yield {"sys": system, "kets": sub, "prior": prior, "calls": calls, "pform": pform_for(prior, crc(sub))}
+            yield {"sys": system, "kets": sub, "prior": "none", "calls": [["1d", 1]] if tier == "quick" else [["col", 0], ["1d", 1]], "pform": "none"}
         for sub in subsets(system, (3,)):
             if tier == "quick":
                 # deviation-bounded: default prior = generic; the two extreme calling configurations
@@ -302,6 +304,8 @@ def ppt_value_check(case):
 def primal_dual_cases(tier, seed):
     for system in ("2x2", "2x3"):
         for sub in subsets(system, (2,)):
+            if tier == "quick" and system == "2x2" and crc(sub) % 2:
+                continue  # on the unchanged tree every 2x2 primal call ends in a CVXOPT breakdown (about 1 CPU-s each): halve them in quick
             yield {"sys": system, "kets": sub, "prior": "g0", "form": "col", "sub": crc(sub) % 2, "pform": "list"}
             if tier == "thorough":
                 yield {"sys": system, "kets": sub, "prior": "uniform", "form": "dm", "sub": 1 - crc(sub) % 2, "pform": "nd"}
@@ -458,7 +462,7 @@ def closed_check(case):
     probs = [0.25] * 4
     before = digest_args(states, probs)
     opts = primal_options(ppt_distinguishability) if case["pd"] == "primal" else {}
-    res, exc, timed_out = guarded_call(100 * GUARD_CPU, ppt_distinguishability, states, list(case["subs"]), [2, 2, 2, 2], probs, "min_error", "cvxopt", case["pd"], **opts)
+    res, exc, timed_out = guarded_call(150 * GUARD_CPU, ppt_distinguishability, states, list(case["subs"]), [2, 2, 2, 2], probs, "min_error", "cvxopt", case["pd"], **opts)
     if timed_out or (exc is not None and solver_failure(exc)):
         return indet("solver failure: " + ("CPU guard" if timed_out else exc_text(exc)))
     if exc is not None:
@@ -674,10 +678,10 @@ def history_ensembles(tier):
         {"sys": "2x2", "kets": [n22[0], "g1"], "prior": "ramp", "form": "dm", "pform": "list"},
         {"sys": "2x2", "kets": [m22[0], m22[2]], "prior": "g0", "form": "dm", "pform": "list"},
         {"sys": "2x3", "kets": [n23[3], "g0"], "prior": "g0", "form": "col", "pform": "list"},
-        {"sys": "2x3", "kets": [n23[8], n23[5]], "prior": "ramp", "form": "dm", "pform": "nd"},
     ]
     if tier == "thorough":
         out += [
+            {"sys": "2x3", "kets": [n23[8], n23[5]], "prior": "ramp", "form": "dm", "pform": "nd"},
             {"sys": "2x2", "kets": [n22[1], n22[5], n22[9]], "prior": "uniform", "form": "col", "pform": "list"},
             {"sys": "2x2", "kets": ["g0", "g1"], "prior": "g0", "form": "col", "pform": "nd"},
             {"sys": "2x2", "kets": [n22[2], n22[6], "g1", n22[9]], "prior": "g0", "form": "col", "pform": "list"},
